@@ -44,6 +44,9 @@ pub struct SeqCase {
     pub tables: bool,
     /// every begun workspace gets a delta embedding: 0 none, 1 axis by begin order (pairwise orthogonal), 2 all the same axis
     pub auto_delta: u8,
+    /// the chain has a non-empty global codebook: auto-merge candidates go past the transition validator
+    #[serde(default)]
+    pub codebook: bool,
     pub ops: Vec<Op>,
 }
 
@@ -70,8 +73,10 @@ pub fn strategy(t: Tier) -> impl Strategy<Value = SeqCase> {
         prop::bool::weighted(0.15),
         prop_oneof![4 => Just(0u8), 2 => Just(1u8), 1 => Just(2u8)],
         prop_oneof![1 => prop::collection::vec(op.clone(), 0..12), 4 => prop::collection::vec(op, 12..=max_ops)],
+        prop::bool::weighted(0.25),
     )
-        .prop_map(|(merge, max_txs, avoid_stale_rollback, strict_first, tables, auto_delta, ops)| SeqCase {
+        .prop_map(|(merge, max_txs, avoid_stale_rollback, strict_first, tables, auto_delta, ops, codebook)| SeqCase {
+            codebook,
             merge,
             max_txs,
             avoid_stale_rollback,
@@ -118,6 +123,7 @@ struct Run {
     next_uid: usize,
     max_txs: usize,
     merge: bool,
+    codebook: bool,
 }
 
 fn rel_image(e: &RelationalEngine) -> Option<RelImage> {
@@ -137,7 +143,7 @@ fn rel_image(e: &RelationalEngine) -> Option<RelImage> {
 impl Run {
     fn new(c: &SeqCase) -> Result<Self, Fail> {
         let max_txs = MAX_TXS[c.max_txs as usize % MAX_TXS.len()];
-        let node = mk_node(1, c.merge, max_txs);
+        let node = if c.codebook { mk_node_codebook(c.merge, max_txs) } else { mk_node(1, c.merge, max_txs) };
         let rel = if c.tables {
             let e = RelationalEngine::with_store(node.store.clone());
             let schema = Schema::new(vec![Column::new("id", ColumnType::Int), Column::new("name", ColumnType::String)]);
@@ -164,6 +170,7 @@ impl Run {
             next_uid: 0,
             max_txs,
             merge: c.merge,
+            codebook: c.codebook,
         })
     }
 
@@ -327,6 +334,15 @@ impl Run {
                     match self.open[k].h.state() {
                         TransactionState::Committed => merged.push(self.open.remove(k)),
                         TransactionState::Active => k += 1,
+                        // a merge candidate the transition validator turned down: it failed, and
+                        // none of its operations may be in the block (checked below: the block
+                        // holds the own operations and the merged workspaces, nothing else)
+                        TransactionState::Failed if self.codebook && self.merge && ws.delta && self.open[k].delta => {
+                            ctx.label("commit:ok:candidate-rejected-by-validator");
+                            ctx.set_nontrivial();
+                            let m = self.open.remove(k);
+                            self.close(m);
+                        },
                         st => {
                             ctx.fail("seq:commit:bystander-state", format!("another open workspace is {st:?} after a successful commit"))?;
                             k += 1;
@@ -614,7 +630,7 @@ pub fn check(c: &SeqCase, ctx: &mut CaseCtx) -> Result<(), Fail> {
                 let busy: Vec<usize> = (0..run.open.len()).filter(|i| !run.open[*i].ops.is_empty()).collect();
                 let i = if w & 3 != 0 && !busy.is_empty() { busy[pick(*w, busy.len())] } else { pick(*w, run.open.len()) };
                 let unreg = matches!(op, Op::CommitUnreg { .. });
-                if unreg && (run.node.chain.height() == 0 || run.open[i].ops.is_empty()) {
+                if unreg && (c.codebook || run.node.chain.height() == 0 || run.open[i].ops.is_empty()) {
                     ctx.label("skip:commit-unregistered-n/a");
                     continue;
                 }
@@ -668,6 +684,8 @@ pub fn check(c: &SeqCase, ctx: &mut CaseCtx) -> Result<(), Fail> {
                     ctx.fail("seq:add-operation:closed-accepted", format!("add_operation accepted on a workspace in state {:?}", run.closed[i].h.state()))?;
                 }
             },
+            // (the forged / foreign blocks are signed with the seeded node key; a codebook node generates its own)
+            Op::Append { .. } if c.codebook => ctx.label("skip:append-on-codebook-node"),
             Op::Append { kind, txs } => run.append(ctx, *kind, txs, c.strict_first)?,
         }
         if ctx.known_hit() {
